@@ -201,6 +201,26 @@ pub fn run(a: &Args, out: &mut Out) {
         let t: String = base.chars().enumerate().map(|(i, c)| if i == pos { 'x' } else { c }).collect();
         strs.push(t);
     }
+    // alias classes: characters whose code point truncated to 7, 8, 16 or 20 bits (or shifted by a power of two) is an ASCII
+    // digit, the characters adjacent to the digit range, digits of other radices and of other scripts; each at the start,
+    // in the middle and at the end of a digit string
+    let mut alias: Vec<char> = Vec::new();
+    for d in 0x30u32..=0x39 {
+        for k in [0x80u32, 0x100, 0x200, 0x400, 0x800, 0x1000, 0x4E00, 0xFF00 - 0x20, 0x10000, 0x1F600, 0x20000, 0x100000] {
+            if let Some(c) = char::from_u32(d + k) {
+                alias.push(c);
+            }
+        }
+    }
+    for c in ['/', ':', 'A', 'F', 'a', 'f', 'z', 'Z', '\u{b2}', '\u{b3}', '\u{b9}', '\u{2070}', '\u{2080}', '\u{660}', '\u{6f0}', '\u{966}', '\u{ff10}', '\u{ff19}', '\u{1d7ce}', '\u{2460}', '\u{216b}', '\u{7f}', '\u{1}'] {
+        alias.push(c);
+    }
+    for c in &alias {
+        strs.push(format!("{}12", c));
+        strs.push(format!("1{}2", c));
+        strs.push(format!("12{}", c));
+        strs.push(c.to_string());
+    }
     for s in &strs {
         from_str_ev(out, "Fq", s);
         from_str_ev(out, "Fr", s);
